@@ -124,7 +124,7 @@ func (w *workload) String() string {
 
 func (w *workload) history() *core.History {
 	h := &core.History{}
-	h.SetConfig(core.N(uint64(w.kind)), core.N(uint64(w.max)), core.N(1), core.N(uint64(w.delay)))
+	h.SetConfig(core.N(uint64(w.kind)), core.I(int64(w.max)), core.N(1), core.N(uint64(w.delay)))
 	for _, o := range w.ops {
 		switch o.code {
 		case opPut:
@@ -162,7 +162,7 @@ var keyPool = [][]byte{[]byte("a"), []byte("b"), []byte("c"), []byte("d"), []byt
 var valPool = [][]byte{nil, {}, {0x01}, {0x02}, {0x03}, []byte("hello"), {0xff, 0x00}}
 
 func genWorkload(rng *rand.Rand, timer bool) *workload {
-	w := &workload{kind: rng.Intn(2), max: core.Pick(rng, []int{1, 2, 2, 3, 3, 5}), delay: noTimerDelay}
+	w := &workload{kind: rng.Intn(2), max: core.Pick(rng, []int{1, 2, 2, 3, 3, 5, 1, 2, 3, 0, -1}), delay: noTimerDelay} // MaxBatchSize <= 0: every write is flushed at once
 	nk := 3 + rng.Intn(3)
 	perm := rng.Perm(len(keyPool))
 	var alpha [][]byte
